@@ -1,6 +1,7 @@
 package hz
 
 import (
+	"bytes"
 	"crypto/ecdsa"
 	"crypto/sha256"
 	"encoding/json"
@@ -688,6 +689,11 @@ func (b *txBuilder) Build(spec TxSpec) *BuiltTx {
 	}
 	if spec.Mut != "" {
 		applyMutation(bt, &tx, spec.Mut, b)
+		if bytes.Equal(bt.Raw, raw) {
+			// the mutation changed nothing (e.g. huge-gasprice on a transaction that was already signed with that gas price):
+			// the bytes are the validly signed transaction, so its signer does authorize it
+			bt.Intact = true
+		}
 	}
 	b.built[spec.ID] = bt
 	return bt
